@@ -136,7 +136,30 @@ def build(ch):
             'iso': d.isoformat()}
 
 
+def first_use(ch):
+    """The first date a freshly built model parses must not write to the cached model (lazily filled tables are what
+    makes a result depend on who else is calling): structural fingerprint before and after, per culture."""
+    from vmc import state
+    cul = ch.pick('culture', dt.CULTURES)
+    ch.shard()
+    state.reset_cache()
+    dt._MODELS.clear()
+    dt.run(cul, '', REFS[1])                                   # construct, recognise nothing
+    before = state.fingerprint(state.cache_roots())
+    got = dt.run(cul, render(cul, 'iso', date(2055, 4, 26)), REFS[1])
+    after = state.fingerprint(state.cache_roots())
+    d = state.diff_fingerprints(before, after)
+    dt._MODELS.clear()
+    state.reset_cache()
+    if d['n']:
+        ch.fail('%s|first-use-writes-to-the-cached-model' % cul, {'culture': cul, 'state_diff': d, 'observed': got})
+    else:
+        ch.ok(case=('first-use', cul), outcome='first-use', sample={'culture': cul, 'fingerprinted_paths': len(after)})
+
+
 def body(ch):
+    if ch.pick('part', ('dates', 'first-use')) == 'first-use':
+        return first_use(ch)
     c = build(ch)
     cul, q, iso = c['culture'], c['query'], c['iso']
     outs = [dt.run(cul, q, r) for r in c['refs']]
